@@ -46,7 +46,7 @@ private theorem a_mul_decay (t_cr T1 : ℝ) : CR.a t_cr * decay CR.tg T1 = decay
   · simp
   · field_simp
 
-theorem cr_det (F : ℝ → ℝ) (theta phi t_cr p_cr T1c T2c T1t T2t : ℝ)
+theorem cr_det (F : ℝ → ℝ) (hF : Continuous F) (theta phi t_cr p_cr T1c T2c T1t T2t : ℝ)
     (hc : 0 ≤ T1c) (ht : 0 ≤ T1t) (w : CR.Samples) :
     (CR.construct F theta phi t_cr p_cr T1c T2c T1t T2t w).det
       = Complex.exp ((-(decay t_cr T1c + decay t_cr T1t) : ℝ) : ℂ) := by
@@ -58,9 +58,9 @@ theorem cr_det (F : ℝ → ℝ) (theta phi t_cr p_cr T1c T2c T1t T2t : ℝ)
   have e1 : (CR.envOf F theta phi t_cr p_cr T1c T2c T1t T2t w).e1_ctr = ((CR.e1_ctr T1c : ℝ) : ℂ) := rfl
   have e2 : (CR.envOf F theta phi t_cr p_cr T1c T2c T1t T2t w).e1_trg = ((CR.e1_trg T1t : ℝ) : ℂ) := rfl
   have ea : (CR.envOf F theta phi t_cr p_cr T1c T2c T1t T2t w).a = ((CR.a t_cr : ℝ) : ℂ) := rfl
-  have d1 : (CR.envOf F theta phi t_cr p_cr T1c T2c T1t T2t w).det1 = ((CR.det1 theta t_cr : ℝ) : ℂ) := rfl
-  have d3 : (CR.envOf F theta phi t_cr p_cr T1c T2c T1t T2t w).det3 = ((CR.det3 theta t_cr : ℝ) : ℂ) := rfl
-  rw [e1, e2, ea, d1, d3, ← Complex.ofReal_add, cr_det1_add_det3 theta t_cr, ← Complex.ofReal_pow,
+  have d1 : (CR.envOf F theta phi t_cr p_cr T1c T2c T1t T2t w).det1 = ((CR.det1 F theta t_cr : ℝ) : ℂ) := rfl
+  have d3 : (CR.envOf F theta phi t_cr p_cr T1c T2c T1t T2t w).det3 = ((CR.det3 F theta t_cr : ℝ) : ℂ) := rfl
+  rw [e1, e2, ea, d1, d3, ← Complex.ofReal_add, cr_det1_add_det3 F hF theta t_cr, ← Complex.ofReal_pow,
     ← Complex.ofReal_pow, cr_e1c_sq T1c hc, cr_e1t_sq T1t ht, ← a_mul_decay t_cr T1c, ← a_mul_decay t_cr T1t]
   push_cast; ring
 
@@ -106,7 +106,7 @@ theorem cnot_det (F : ℝ → ℝ) (hF : Continuous F) (phi_ctr phi_trg t_cnot p
   have hq' : -Real.pi / 4 ≠ 0 := by
     have := Real.pi_pos; intro h; linarith
   unfold CNOT.construct
-  simp only [Matrix.det_mul, det_kron2, cr_det F _ _ _ _ _ _ _ _ hc ht,
+  simp only [Matrix.det_mul, det_kron2, cr_det F hF _ _ _ _ _ _ _ _ hc ht,
     x_det F hF _ _ _ _ hc, sx_det F hF _ _ _ _ ht, single_qubit_det F hF _ _ _ _ _ hc, relaxation_det _ _ _ ht]
   simp only [← Complex.exp_add, ← Complex.exp_nat_mul]
   congr 1
@@ -125,7 +125,7 @@ theorem cnot_inv_det (F : ℝ → ℝ) (hF : Continuous F) (phi_ctr phi_trg t_cn
   have hq' : -Real.pi / 4 ≠ 0 := by
     have := Real.pi_pos; intro h; linarith
   unfold CNOTInv.construct
-  simp only [Matrix.det_mul, det_kron2, cr_det F _ _ _ _ _ _ _ _ ht hc,
+  simp only [Matrix.det_mul, det_kron2, cr_det F hF _ _ _ _ _ _ _ _ ht hc,
     x_det F hF _ _ _ _ ht, sx_det F hF _ _ _ _ ht, sx_det F hF _ _ _ _ hc, single_qubit_det F hF _ _ _ _ _ hc,
     single_qubit_det F hF _ _ _ _ _ ht, relaxation_det _ _ _ hc]
   simp only [← Complex.exp_add, ← Complex.exp_nat_mul]
@@ -146,7 +146,7 @@ theorem ecr_det (F : ℝ → ℝ) (hF : Continuous F) (phi_ctr phi_trg t_ecr p_e
   have hq' : -Real.pi / 4 ≠ 0 := by
     have := Real.pi_pos; intro h; linarith
   unfold ECR.construct
-  simp only [Matrix.det_mul, det_kron2, Matrix.det_smul, Fintype.card_fin, cr_det F _ _ _ _ _ _ _ _ hc ht, x_det F hF _ _ _ _ hc, relaxation_det _ _ _ ht]
+  simp only [Matrix.det_mul, det_kron2, Matrix.det_smul, Fintype.card_fin, cr_det F hF _ _ _ _ _ _ _ _ hc ht, x_det F hF _ _ _ _ hc, relaxation_det _ _ _ ht]
   have hI : ((-Complex.I) ^ 2) ^ 2 = 1 := by
     rw [neg_sq, Complex.I_sq]; norm_num
   rw [mul_pow, hI, one_mul]
@@ -168,7 +168,7 @@ theorem ecr_inv_det (F : ℝ → ℝ) (hF : Continuous F) (phi_ctr phi_trg t_ecr
   have hq' : -Real.pi / 4 ≠ 0 := by
     have := Real.pi_pos; intro h; linarith
   unfold ECRInv.construct
-  simp only [Matrix.det_mul, det_kron2, Matrix.det_smul, Fintype.card_fin, cr_det F _ _ _ _ _ _ _ _ hc ht, x_det F hF _ _ _ _ hc, sx_det F hF _ _ _ _ hc, sx_det F hF _ _ _ _ ht,
+  simp only [Matrix.det_mul, det_kron2, Matrix.det_smul, Fintype.card_fin, cr_det F hF _ _ _ _ _ _ _ _ hc ht, x_det F hF _ _ _ _ hc, sx_det F hF _ _ _ _ hc, sx_det F hF _ _ _ _ ht,
     relaxation_det _ _ _ ht]
   have hI : ((-Complex.I) ^ 2) ^ 2 = 1 := by
     rw [neg_sq, Complex.I_sq]; norm_num
